@@ -1,3 +1,119 @@
 package sym
 
-func registerTLSIntrinsics() {}
+import (
+	"go/types"
+
+	"golang.org/x/tools/go/ssa"
+)
+
+// crypto/tls is not interpreted: a *tls.Conn is an opaque wrapper around the inner (scripted)
+// connection. Handshake outcome and connection state come from harness functions
+// vtlsHandshake(inner net.Conn) error and vtlsState(inner net.Conn) tls.ConnectionState.
+
+type tlsObj struct {
+	inner *IfaceV
+}
+
+func (g *G) tlsOf(v Value) *tlsObj {
+	c := recvCell(g, v)
+	o, _ := c.Ext.(*tlsObj)
+	if o == nil {
+		g.m.unsupported("method call on a *tls.Conn that was not created by tls.Server")
+	}
+	return o
+}
+
+func (g *G) harnessFunc(name string) *ssa.Function {
+	pkg := g.m.ld.PkgByPath[g.m.cfg.Pkg]
+	if pkg == nil {
+		return nil
+	}
+	return pkg.Func(name)
+}
+
+func (g *G) invokeOn(iv *IfaceV, method string, args ...Value) Value {
+	if iv == nil {
+		g.throw("nil-deref", "invalid memory address or nil pointer dereference")
+	}
+	fn := g.hasMethod(iv.T, method)
+	if fn == nil {
+		g.m.unsupported("no method %s on %v", method, iv.T)
+	}
+	return g.call(fn, append([]Value{iv.V}, args...), nil)
+}
+
+func registerTLSIntrinsics() {
+	intrinsics["crypto/tls.Server"] = func(g *G, fn *ssa.Function, args []Value) Value {
+		m := g.m
+		t := m.namedType("crypto/tls", "Conn")
+		cell := &Cell{T: t, Kids: nil}
+		inner, _ := args[0].(*IfaceV)
+		cell.Ext = &tlsObj{inner: inner}
+		cell.V = nil
+		m.res.Intrinsics["crypto/tls.* (opaque wrapper; handshake outcome chosen by the harness)"] = true
+		return cell
+	}
+	intrinsics["(*crypto/tls.Conn).Handshake"] = func(g *G, fn *ssa.Function, args []Value) Value {
+		o := g.tlsOf(args[0])
+		if hf := g.harnessFunc("vtlsHandshake"); hf != nil {
+			return g.call(hf, []Value{o.inner}, nil)
+		}
+		return (*IfaceV)(nil)
+	}
+	intrinsics["(*crypto/tls.Conn).HandshakeContext"] = func(g *G, fn *ssa.Function, args []Value) Value {
+		o := g.tlsOf(args[0])
+		if hf := g.harnessFunc("vtlsHandshake"); hf != nil {
+			return g.call(hf, []Value{o.inner}, nil)
+		}
+		return (*IfaceV)(nil)
+	}
+	intrinsics["(*crypto/tls.Conn).ConnectionState"] = func(g *G, fn *ssa.Function, args []Value) Value {
+		o := g.tlsOf(args[0])
+		if hf := g.harnessFunc("vtlsState"); hf != nil {
+			return g.call(hf, []Value{o.inner}, nil)
+		}
+		return g.m.zero(fn.Signature.Results().At(0).Type())
+	}
+	for _, meth := range []string{"Read", "Write", "Close", "LocalAddr", "RemoteAddr", "SetDeadline", "SetReadDeadline", "SetWriteDeadline"} {
+		meth := meth
+		intrinsics["(*crypto/tls.Conn)."+meth] = func(g *G, fn *ssa.Function, args []Value) Value {
+			o := g.tlsOf(args[0])
+			return g.invokeOn(o.inner, meth, args[1:]...)
+		}
+	}
+	intrinsics["(*crypto/tls.Conn).NetConn"] = func(g *G, fn *ssa.Function, args []Value) Value {
+		return g.tlsOf(args[0]).inner
+	}
+}
+
+var _ = types.Typ
+
+func init() {
+	intrinsics["crypto/tls.X509KeyPair"] = func(g *G, fn *ssa.Function, args []Value) Value {
+		res := fn.Signature.Results()
+		if g.m.choose("x509keypair-ok", 2) == 0 {
+			return Tuple{g.m.zero(res.At(0).Type()), (*IfaceV)(nil)}
+		}
+		return Tuple{g.m.zero(res.At(0).Type()), g.m.errorsNew(g.m.strConst("tls: failed to find any PEM data"))}
+	}
+	intrinsics["crypto/x509.NewCertPool"] = func(g *G, fn *ssa.Function, args []Value) Value {
+		cell := &Cell{T: g.m.namedType("crypto/x509", "CertPool")}
+		cell.Ext = &certPoolObj{}
+		return cell
+	}
+	intrinsics["(*crypto/x509.CertPool).AppendCertsFromPEM"] = func(g *G, fn *ssa.Function, args []Value) Value {
+		c := recvCell(g, args[0])
+		if o, ok := c.Ext.(*certPoolObj); ok {
+			o.pems = append(o.pems, g.byteSeq(args[1]))
+		}
+		return g.m.ctx.True
+	}
+	intrinsics["os.ReadFile"] = func(g *G, fn *ssa.Function, args []Value) Value {
+		if g.m.choose("readfile-ok", 2) == 0 {
+			return Tuple{g.m.bytesToSlice(g.m.strConst("file-contents").b), (*IfaceV)(nil)}
+		}
+		return Tuple{(*SliceV)(nil), g.m.errorsNew(g.m.strConst("open: no such file or directory"))}
+	}
+}
+
+type certPoolObj struct{ pems [][]*Term }
